@@ -172,3 +172,46 @@ def grammar_items(ctx):
         ctx.case(key=("grammar-retained", spec, tuple(order)), nontrivial=len(spec[0]) >= 1)
         ctx.count("grammar_retained_npts=%d" % n)
     return items, desc
+
+
+# ---------------------------------------------------------------- the end-to-end target (Model/EndToEnd.v)
+E2E_HEADER = """From PV Require Import Model.EndToEnd Model.CaseUtil.
+Open Scope nat_scope.
+Definition tol : Q := (1#1000000000)%Q.
+Definition teqb (a b : list (list bool)) : bool := if teq a b then true else false.
+Definition chk_e2e (alpha : Qc) (G nsamp : nat) (D : nat -> dpoint) (n : nat) (on : bool) (t : list (list bool)) (lp1 lp : Q) : bool :=
+  qcclose tol (gam_fscrp alpha c_default G nsamp D n on t) lp1
+  && qcclose tol (dens_marg alpha G nsamp D (forest_of_table n on t)) lp
+  && teqb (tab n (frel (forest_of_table n on t))) t.
+"""
+
+
+def e2e_items(ctx):
+    """The target of C01_phyclone_update_leaves_fscrp_posterior_invariant, evaluated inside Coq on every state of the
+    state space, against the real TreeJointDistribution.log_p_one / log_p of the tree the harness builds for that state
+    (the pi of the exact transition matrices): the measure the theorem is about IS the posterior the implementation
+    records.  Also re-checks on these states that the table denotes the rose forest whose density is taken."""
+    from .C03 import coq_data, q, qq
+    from ..trees import coq_table, rational_values, spec_table
+
+    header = E2E_HEADER
+    items, desc = [], []
+    groups = [(1, True, 1, 3), (2, True, 2, 3), (2, False, 1, 4), (3, True, 1, 3), (3, False, 2, 2)]
+    if not ctx.quick:
+        groups += [(3, True, 2, 4), (4, False, 1, 3), (4, True, 1, 2)]
+    for gi, (n, on, nsamp, G) in enumerate(groups):
+        vals = rational_values(ctx.rng, n, nsamp, G)
+        dop = Fraction(ctx.rng.choice([1, 2, 3]), 10) if on else Fraction(0)
+        alpha = Fraction(ctx.rng.choice([3, 10, 25]), 10)
+        data = make_data(vals, outlier_prob=float(dop))
+        td = make_tree_dist(float(alpha))
+        header += coq_data("D%d" % gi, vals, dop, [1] * n)
+        for spec in all_specs(range(n), outliers=on):
+            tree = build_tree(spec, data)
+            lp1 = Fraction(math.exp(float(td.log_p_one(tree))))
+            lp = Fraction(math.exp(float(td.log_p(tree))))
+            items.append("chk_e2e %s %d %d D%d %d %s %s %s %s" % (q(alpha), G, nsamp, gi, n, "true" if on else "false", coq_table(spec_table(spec, n)), qq(lp1), qq(lp)))
+            desc.append({"what": "end-to-end target", "n": n, "outliers": on, "samples": nsamp, "grid": G, "alpha": str(alpha), "state": spec})
+            ctx.case(key=("e2e-target", gi, spec), nontrivial=n >= 2)
+            ctx.count("e2e_target_npts=%d" % n)
+    return header, items, desc
